@@ -1,11 +1,17 @@
 #!/bin/bash
-# tools/eval_seed.sh <seed-dir> <Cxx> [tier]  : confirm a seeded regression and run our check against it
-# <seed-dir> contains wt/ (worktree with the patch applied) and out/{patch.diff,demo.py,meta.json}
-D=$1; P=$2; TIER=${3:-quick}
-echo "== $P ($D)"
-PYTHONPATH=/repo /venv/bin/python $D/out/demo.py >/dev/null 2>&1; echo "demo on /repo (expect 0): $?"
-PYTHONPATH=$D/wt /venv/bin/python $D/out/demo.py >/dev/null 2>&1; echo "demo on patched (expect 1): $?"
-( cd $D/wt && PYTHONPATH=$D/wt timeout 1200 /venv/bin/python -m pytest -q -p no:cacheprovider 2>&1 | tail -1 )
+# tools/eval_seed.sh <seeded-id> [tier] [check-id]
+# Re-confirms a seeded regression kept under /verif/seeded/<id>/ (patch.diff, demo.py, meta.json) and runs
+# our check against it, in a throw-away worktree of /repo (removed afterwards).
+ID=$1; TIER=${2:-quick}; P=${3:-${ID%%-*}}
+S=/verif/seeded/$ID
+W=$(mktemp -d /tmp/seedwt.XXXXXX)
+git -C /repo worktree add -q --detach $W/wt HEAD || exit 2
+git -C $W/wt apply $S/patch.diff || { echo "patch does not apply"; git -C /repo worktree remove --force $W/wt; exit 2; }
+echo "== $ID (property $P)"
+PYTHONPATH=/repo /venv/bin/python $S/demo.py >/dev/null 2>&1; echo "demo on /repo (expect 0): $?"
+PYTHONPATH=$W/wt /venv/bin/python $S/demo.py >/dev/null 2>&1; echo "demo on patched (expect 1): $?"
+if [ -z "$SKIP_TESTS" ]; then ( cd $W/wt && PYTHONPATH=$W/wt timeout 1200 /venv/bin/python -m pytest -q -p no:cacheprovider 2>&1 | tail -1 ); fi
 cd /verif
-VERIF_REPO=$D/wt timeout 3000 ./check $P --tier $TIER 2>&1 | grep -v "WARN\|UserWarn\|util.warn" | grep -E "VIOLATION|^\[C|infrastructure" | cut -c1-200
+VERIF_REPO=$W/wt timeout 3000 ./check $P --tier $TIER 2>&1 | grep -v "WARN\|UserWarn\|util.warn" | grep -E "VIOLATION|^\[C|infrastructure" | cut -c1-200
 echo "check exit: ${PIPESTATUS[0]}"
+git -C /repo worktree remove --force $W/wt; rm -rf $W
